@@ -91,6 +91,9 @@ ExpectedDecode(out, pendAll, a) ==
 
 EObs(ev) == [res |-> ev.res, um |-> ev.um, read |-> ev.read, written |-> ev.written, out |-> ev.out]
 
+\* conjuncts that depend on the event alone; they are also reported when the event is rejected by an earlier rule
+EIndepTags(ev) == ETags(<< <<\E j \in 1..Len(ev.alt) : ev.alt[j] # EObs(ev), "C18.enc-fill-dependent">>, <<~ev.guard, "C06.enc-guard">> >>)
+
 EMonEncode(m0, ev) ==
   LET m == [m0 EXCEPT !.ctr.k = @ + 1, !.ctr.calls = @ + 1] IN
   IF m.desync THEN m
@@ -106,7 +109,7 @@ EMonEncode(m0, ev) ==
   IN
   IF ~repushOK THEN [EAddViols(m, <<"proto.driver">>) EXCEPT !.desync = TRUE]
   ELSE IF ev.read > Len(ev.src) \/ ev.written > ev.cap \/ ev.written # Len(ev.out) THEN
-       [EAddViols(m, <<"C06.enc-bounds">>) EXCEPT !.desync = TRUE]
+       [EAddViols(m, <<"C06.enc-bounds">> \o EIndepTags(ev)) EXCEPT !.desync = TRUE]
   ELSE
   LET newS == IF Len(S) > Len(m.pend) THEN SubSeq(S, Len(m.pend) + 1, Len(S)) ELSE <<>>
       pend1 == m.pend \o newS
@@ -117,13 +120,13 @@ EMonEncode(m0, ev) ==
       r == UnitsToCount(pend1, ev.read, 1, 0)
       nb == PopAtoms(avail1, ev.out, 0)
   IN
-  IF r < 0 THEN [EAddViols(m, <<"C04.split-character">>) EXCEPT !.desync = TRUE]
-  ELSE IF nb < 0 THEN [EAddViols(m, <<"C04.prefix">>) EXCEPT !.desync = TRUE]
+  IF r < 0 THEN [EAddViols(m, <<"C04.split-character">> \o EIndepTags(ev)) EXCEPT !.desync = TRUE]
+  ELSE IF nb < 0 THEN [EAddViols(m, <<"C04.prefix">> \o EIndepTags(ev)) EXCEPT !.desync = TRUE]
   ELSE
   LET umOK == ev.res # "U" \/ (nb < Len(avail1) /\ avail1[nb + 1].k = "u" /\ avail1[nb + 1].v = <<ev.um>>)
       n == IF ev.res = "U" THEN nb + 1 ELSE nb
   IN
-  IF ~umOK THEN [EAddViols(m, <<"C04.unmappable">>) EXCEPT !.desync = TRUE]
+  IF ~umOK THEN [EAddViols(m, <<"C04.unmappable">> \o EIndepTags(ev)) EXCEPT !.desync = TRUE]
   ELSE
   LET popped == SubSeq(avail1, 1, n)
       rest == SubSeq(avail1, n + 1, Len(avail1))
